@@ -13,6 +13,9 @@ package main
 //   applySkipsMissing : expr.Aggregator.Apply consumes `v` only under `if !v.IsMissing()`
 //   liftedOps : the dag op types of the `switch op := ops[egress].(type)` in
 //          optimizer.liftIntoParPaths (the operators copied into scatter legs), in order
+//   sortedInputKeyRanges : the expressions the two loops range over that decide whether a
+//          summarize is told its input is sorted (optimizer.propagateSortKeyOp's dag.Summarize
+//          case, optimizer.isKeyOfSummarize): only the FIRST group-by key may count
 //
 // Anything not recognised is refused.
 
@@ -234,6 +237,55 @@ func genC10(repo string) (string, error) {
 		return "", fmt.Errorf("%s: liftIntoParPaths: `switch op := ops[egress].(type)` not found", pf.pos(lf))
 	}
 	fmt.Fprintf(&b, "def liftedOps : List String := %s\n", leanStrList(lifted))
+
+	// ---- which group-by keys make the optimizer declare a summarize's input sorted -------
+	// (the Aggregator streams on its first key only: fix 32e95e058)
+	of, err := parseFile(repo, "compiler/optimizer/optimizer.go")
+	if err != nil {
+		return "", err
+	}
+	pk, err := of.funcDecl("Optimizer", "propagateSortKeyOp")
+	if err != nil {
+		return "", err
+	}
+	var ranges []string
+	ast.Inspect(pk.Body, func(n ast.Node) bool {
+		cc, ok := n.(*ast.CaseClause)
+		if !ok || len(cc.List) != 1 || renderExpr(of, cc.List[0]) != "*dag.Summarize" {
+			return true
+		}
+		for _, st := range cc.Body {
+			ast.Inspect(st, func(m ast.Node) bool {
+				if rs, ok := m.(*ast.RangeStmt); ok {
+					ranges = append(ranges, renderExpr(of, rs.X))
+				}
+				return true
+			})
+		}
+		return false
+	})
+	if len(ranges) != 1 {
+		return "", fmt.Errorf("%s: propagateSortKeyOp: %d range loops in the dag.Summarize case, expected 1", of.pos(pk), len(ranges))
+	}
+	opf, err := parseFile(repo, "compiler/optimizer/op.go")
+	if err != nil {
+		return "", err
+	}
+	ik, err := opf.funcDecl("", "isKeyOfSummarize")
+	if err != nil {
+		return "", err
+	}
+	n0 := len(ranges)
+	ast.Inspect(ik.Body, func(m ast.Node) bool {
+		if rs, ok := m.(*ast.RangeStmt); ok {
+			ranges = append(ranges, renderExpr(opf, rs.X))
+		}
+		return true
+	})
+	if len(ranges) != n0+1 {
+		return "", fmt.Errorf("%s: isKeyOfSummarize: %d range loops, expected 1", opf.pos(ik), len(ranges)-n0)
+	}
+	fmt.Fprintf(&b, "def sortedInputKeyRanges : List String := %s\n", leanStrList(ranges))
 	return b.String(), nil
 }
 
